@@ -237,6 +237,18 @@ Definition saneb (m : lvsmodel) : bool :=
 Definition sign_acyclic (m : lvsmodel) : Prop :=
   exists rank : N -> nat, forall i nd k, reach m i -> get_node m i = Some nd -> In k (n_sign nd) -> (rank k < rank i)%nat.
 
+(* executable form of [sign_acyclic]: from no node does a signing chain of more than #nodes steps start *)
+Fixpoint sign_depth_ok (fuel : nat) (m : lvsmodel) (i : N) : bool :=
+  match fuel with
+  | O => false
+  | Datatypes.S k => match get_node m i with
+                     | Some nd => forallb (sign_depth_ok k m) (n_sign nd)
+                     | None => true
+                     end
+  end.
+Definition sign_acyclicb (m : lvsmodel) : bool :=
+  forallb (sign_depth_ok (Datatypes.S (length (m_nodes m))) m) (reach_set m).
+
 (* ---- 5. static errors of a schema ------------------------------------------------------------------ *)
 Definition rule_refs (d : rule) : list ident := flat_map (fun c => match c with CRef r => [r] | _ => [] end) (r_name d).
 Definition name_pats (d : rule) : list ident := flat_map (fun c => match c with CPat p => [p] | _ => [] end) (r_name d).
@@ -268,3 +280,12 @@ Definition static_ok (S : lvsfile) : bool :=
   && forallb (fun d => ref_depth_ok (Datatypes.S (length S)) S (r_id d)) S               (* cyclic references *)
   && forallb (fun d => forallb (forallb (cons_ok S d)) (r_cons d)) S                       (* unknown / temporary pattern *)
   && forallb (fun d => forallb (defined S) (r_sign d)) S.                                  (* unknown signer *)
+
+(* cyclic signing relations between rules: some rule is, transitively, its own signer *)
+Fixpoint rule_sign_depth_ok (fuel : nat) (S : lvsfile) (r : ident) : bool :=
+  match fuel with
+  | O => false
+  | Datatypes.S k => forallb (fun d => forallb (rule_sign_depth_ok k S) (r_sign d)) (filter (fun d => ident_eqb (r_id d) r) S)
+  end.
+Definition no_rule_sign_cycle (S : lvsfile) : bool :=
+  forallb (fun d => rule_sign_depth_ok (Datatypes.S (length S)) S (r_id d)) S.
